@@ -93,6 +93,10 @@ func hdocH(line string) string {
 		op = "<<-"
 	}
 	src := "cat " + op + "'" + unhex(f[1]) + "'\n" + unhex(f[2])
+	if len(f) > 3 && f[3] == "u" {
+		// unquoted delimiter (a plain word): the body is scanned
+		src = "cat " + op + unhex(f[1]) + "\n" + unhex(f[2])
+	}
 	rs := &runeScanner{s: src, prev: -1, failAt: -1}
 	cmds, _, err := parser.ParseCommands(nil, "t", rs)
 	if err != nil {
